@@ -84,6 +84,20 @@ func checkC01(c *Check) {
 			c.Hold("R7", o.Key, o.posRaw, o.OK, o.Msg)
 		}
 	}
+
+	// R8: the recipients the queue answers for are the recipients it said yes to, and a target's failure for one of them
+	// is found under the string the queue handed to the target. C10.R5 / R6, clauses of "no silent loss" as well.
+	c.Rule("R8", "queueDelivery.AddRcpt accepts only after putting the unmodified address on the pending list; partialError.SetStatus files a failure under the key it was called with (C10.R5, C10.R6)", 2)
+	sub10 := newCheck("C10", c.P, c.Tier)
+	c10Recipients(sub10)
+	for _, o := range sub10.obs {
+		if o.Rule == "R5" || o.Rule == "R6" {
+			c.Hold("R8", o.Rule+":"+o.Key, o.posRaw, o.OK, o.Msg)
+		}
+	}
+	for f := range sub10.funcs {
+		c.SawFunc(f)
+	}
 }
 
 func c01Deliver(c *Check) {
